@@ -574,6 +574,24 @@ def _inputs(chk):
                 ok = isinstance(ac, ast.Constant) and ac.value is False
                 chk.check(ok, "LAZY.input.flag", fn, node,
                           why="the input data is stored without allow_compute=False: compute() would load the user's (possibly huge) input into memory")
+    # a container built FROM another container starts with allow_compute=True for every entry it copies
+    # (DataContainer.__init__), so the copy forgets which entry is the user's input
+    dcc = pm.cls("xeofs.data_container.data_container.DataContainer")
+    init = dcc.methods.get("__init__")
+    resets = init is not None and any(isinstance(x, (ast.DictComp, ast.Dict, ast.Call)) and "True" in norm(x) for st in walk_no_nested(init.node)
+                                      if isinstance(st, ast.Assign) and is_self_attr(st.targets[0], "_allow_compute") for x in [st.value])
+    for fn in pm.all_functions():
+        if fn.cls is dcc:
+            continue
+        ctx = Ctx(pm, fn)
+        for c in calls_in(fn):
+            if not (c.args or any(k.arg is None for k in c.keywords)):
+                continue
+            if any(t.fn is init for t in ctx.resolve_call(c)) and resets:
+                n += 1
+                chk.violation("LAZY.input.copy", fn, c,
+                              why="a DataContainer is built from existing entries: its constructor marks every copied entry allow_compute=True, so the input data "
+                                  "stored with allow_compute=False is computed (loaded into memory) by the next compute()")
     dc = pm.own_method("xeofs.data_container.data_container.DataContainer", "compute")
     t = norm(dc.node)
     chk.check("_allow_compute[" in t and " if " in t, "LAZY.input.filter", dc, None, construct="DataContainer.compute filters on _allow_compute",
